@@ -32,6 +32,7 @@ import (
 	"go/ast"
 	"go/parser"
 	"go/token"
+	"os"
 	"path/filepath"
 	"sort"
 	"strconv"
@@ -47,6 +48,8 @@ const (
 	kGem
 	kOpts
 	kEd
+	kRef // *parentRef: the parent of a sub-editor and the byte range it replaces
+	kSb  // strings.Builder: the bytes written so far
 )
 
 func (k kind) coq() string {
@@ -63,6 +66,10 @@ func (k kind) coq() string {
 		return "options"
 	case kEd:
 		return "editor"
+	case kRef:
+		return "(editor * Z * Z)"
+	case kSb:
+		return "list Z"
 	}
 	return "?"
 }
@@ -101,6 +108,12 @@ func cq(name string) string {
 	return name
 }
 
+// methods of Editor that are mapped onto the model by the table above, not translated on demand
+var tableMethod = map[string]bool{
+	"Chars": true, "CharsTo": true, "CharsFrom": true, "Lines": true, "LinesTo": true, "LinesFrom": true,
+	"LineCount": true, "IsSubEditor": true, "Commit": true, "CommitAll": true,
+}
+
 // gemSig is the signature of a translated function.
 type gemSig struct {
 	res     kind
@@ -121,18 +134,68 @@ type gemUnit struct {
 	names []string // their names (for the unfold hints)
 }
 
-func newGemUnit(repo, file string) *gemUnit {
-	fset := token.NewFileSet()
-	af, err := parser.ParseFile(fset, filepath.Join(repo, file), nil, 0)
+// declKey is the name a function is looked up by: Name for a plain function, Type.Name for a method.
+func declKey(fd *ast.FuncDecl) string {
+	if fd.Recv == nil || len(fd.Recv.List) != 1 {
+		return fd.Name.Name
+	}
+	t := fd.Recv.List[0].Type
+	if st, ok := t.(*ast.StarExpr); ok {
+		t = st.X
+	}
+	if id, ok := t.(*ast.Ident); ok {
+		return id.Name + "." + fd.Name.Name
+	}
+	return "?." + fd.Name.Name
+}
+
+// coqName is the Gallina name of a translated function: go_Name, whatever its receiver.
+func coqName(key string) string {
+	if i := strings.LastIndex(key, "."); i >= 0 {
+		return "go_" + key[i+1:]
+	}
+	return "go_" + key
+}
+
+// parsePkg parses the non-test Go files of a package directory that are part of the normal build
+// (files behind a build constraint, such as the verif-tagged exports, are left out).
+func parsePkg(dir string) []*ast.File {
+	ents, err := os.ReadDir(dir)
 	if err != nil {
 		fail("%v", err)
 	}
-	u := &gemUnit{file: file, decls: map[string]*ast.FuncDecl{}, done: map[string]gemSig{}, busy: map[string]bool{}}
-	for _, d := range af.Decls {
-		if fd, ok := d.(*ast.FuncDecl); ok && fd.Body != nil {
-			// methods are looked up by bare name too: the entry points name them that way
-			if _, dup := u.decls[fd.Name.Name]; !dup {
-				u.decls[fd.Name.Name] = fd
+	fset := token.NewFileSet()
+	var out []*ast.File
+	for _, e := range ents {
+		n := e.Name()
+		if e.IsDir() || !strings.HasSuffix(n, ".go") || strings.HasSuffix(n, "_test.go") {
+			continue
+		}
+		src, err := os.ReadFile(filepath.Join(dir, n))
+		if err != nil {
+			fail("%v", err)
+		}
+		if strings.Contains(string(src), "//go:build") {
+			continue
+		}
+		af, err := parser.ParseFile(fset, filepath.Join(dir, n), src, 0)
+		if err != nil {
+			fail("%v", err)
+		}
+		out = append(out, af)
+	}
+	return out
+}
+
+// newGemUnit reads every function of the package in directory dir (a function may move between
+// the files of its package without the translation noticing).
+func newGemUnit(repo, dir string) *gemUnit {
+	u := &gemUnit{file: dir, decls: map[string]*ast.FuncDecl{}, done: map[string]gemSig{}, busy: map[string]bool{}}
+	for _, af := range parsePkg(filepath.Join(repo, dir)) {
+		for _, d := range af.Decls {
+			if fd, ok := d.(*ast.FuncDecl); ok && fd.Body != nil {
+				// plain functions by name, methods as Type.Name
+				u.decls[declKey(fd)] = fd
 			}
 		}
 	}
@@ -154,7 +217,7 @@ type gemFn struct {
 // statement being translated (Go evaluates it there too: left to right, before the assignment)
 func (f *gemFn) hoist(e string) string {
 	if !f.monadic {
-		f.bad("an operation that may panic in a function translated as total")
+		panic(needMonad{})
 	}
 	f.tmp++
 	t := fmt.Sprintf("t%d_", f.tmp)
@@ -191,6 +254,13 @@ func typeKind(e ast.Expr) (kind, bool) {
 		if id, ok := v.X.(*ast.Ident); ok && id.Name == "gem" && v.Sel.Name == "String" {
 			return kGem, true
 		}
+		if id, ok := v.X.(*ast.Ident); ok && id.Name == "strings" && v.Sel.Name == "Builder" {
+			return kSb, true
+		}
+	case *ast.StarExpr:
+		if id, ok := v.X.(*ast.Ident); ok && id.Name == "parentRef" {
+			return kRef, true
+		}
 	}
 	return 0, false
 }
@@ -201,7 +271,7 @@ func zeroOf(k kind) string {
 		return "0"
 	case kBool:
 		return "false"
-	case kStr, kGem:
+	case kStr, kGem, kSb:
 		return "[]"
 	}
 	return "zero_options"
@@ -252,6 +322,40 @@ func isNotSpaceClosure(e ast.Expr) bool {
 	return ok && n == 0
 }
 
+// exprIfKind translates e when it is an expression of kind want; otherwise it returns kind -1
+// without side effects (package names such as gem or strings are not expressions).
+func (f *gemFn) exprIfKind(e ast.Expr, want kind) (string, kind) {
+	switch v := e.(type) {
+	case *ast.Ident:
+		if k, ok := f.vars[v.Name]; !ok || k != want {
+			return "", -1
+		}
+	case *ast.SelectorExpr:
+		switch want {
+		case kRef:
+			if v.Sel.Name != "ref" {
+				return "", -1
+			}
+		case kEd:
+			if v.Sel.Name != "parent" {
+				return "", -1
+			}
+		default:
+			return "", -1
+		}
+	case *ast.CallExpr, *ast.ParenExpr, *ast.StarExpr:
+	default:
+		return "", -1
+	}
+	npre, ntmp := len(f.pre), f.tmp
+	x, k := f.expr(e)
+	if k != want {
+		f.pre, f.tmp = f.pre[:npre], ntmp
+		return "", -1
+	}
+	return x, k
+}
+
 // expr translates e and returns its kind.
 func (f *gemFn) expr(e ast.Expr) (string, kind) {
 	switch v := e.(type) {
@@ -287,12 +391,19 @@ func (f *gemFn) expr(e ast.Expr) (string, kind) {
 		}
 		f.bad("unknown identifier %s", v.Name)
 	case *ast.SelectorExpr:
-		// ed.ref.start / ed.ref.end: a nil reference panics
-		if inner, ok := v.X.(*ast.SelectorExpr); ok && inner.Sel.Name == "ref" && (v.Sel.Name == "start" || v.Sel.Name == "end") {
-			x, k := f.expr(inner.X)
-			if k == kEd {
-				r := f.hoist("ed_ref " + x)
-				return "(ref_" + v.Sel.Name + " " + r + ")", kInt
+		// ed.ref: a nil reference panics when it is dereferenced; it is only ever dereferenced
+		if v.Sel.Name == "ref" {
+			if x, k := f.exprIfKind(v.X, kEd); k == kEd {
+				return f.hoist("ed_ref " + x), kRef
+			}
+		}
+		if v.Sel.Name == "start" || v.Sel.Name == "end" || v.Sel.Name == "parent" {
+			if x, k := f.exprIfKind(v.X, kRef); k == kRef {
+				if v.Sel.Name == "parent" {
+					// a *Editor: only ever read through (*p or p.Field), so it is translated as the value
+					return "(ref_parent " + x + ")", kEd
+				}
+				return "(ref_" + v.Sel.Name + " " + x + ")", kInt
 			}
 		}
 		if v.Sel.Name == "Text" {
@@ -311,6 +422,11 @@ func (f *gemFn) expr(e ast.Expr) (string, kind) {
 				}
 				return "(" + fd.coq + " " + cq(id.Name) + ")", fd.k
 			}
+		}
+	case *ast.StarExpr:
+		x, k := f.expr(v.X)
+		if k == kEd {
+			return x, kEd
 		}
 	case *ast.SliceExpr:
 		if v.Slice3 {
@@ -488,6 +604,44 @@ func (f *gemFn) expr(e ast.Expr) (string, kind) {
 					f.bad("unsupported call gem.%s", sel.Sel.Name)
 				}
 			}
+			// methods declared in the same file (helpers with a receiver), translated on demand
+			for _, tn := range []string{"Editor", "parentRef", "Options"} {
+				fd, ok := f.unit.decls[tn+"."+sel.Sel.Name]
+				if !ok || (tn == "Editor" && tableMethod[sel.Sel.Name]) {
+					continue
+				}
+				rk, okk := typeKind(fd.Recv.List[0].Type)
+				if okk {
+					if rx, k := f.exprIfKind(sel.X, rk); k == rk {
+						c := f.unit.translate(tn + "." + sel.Sel.Name)
+						if c.multi || len(v.Args) != len(c.args) {
+							f.bad("call of method %s", sel.Sel.Name)
+						}
+						out := "go_" + sel.Sel.Name + " " + rx
+						for i, a := range v.Args {
+							y, ky := f.expr(a)
+							if ky != c.args[i] {
+								f.bad("call of %s: argument type", sel.Sel.Name)
+							}
+							out += " " + y
+						}
+						if c.monadic {
+							return f.hoist(out), c.res
+						}
+						return "(" + out + ")", c.res
+					}
+				}
+			}
+			// strings.Builder
+			if bx, k := f.exprIfKind(sel.X, kSb); k == kSb {
+				switch {
+				case sel.Sel.Name == "String" && len(v.Args) == 0:
+					return bx, kStr
+				case sel.Sel.Name == "Len" && len(v.Args) == 0:
+					return "(zlen " + bx + ")", kInt
+				}
+				f.bad("unsupported use of strings.Builder.%s in an expression", sel.Sel.Name)
+			}
 			// methods of gem.String values and selections of Editors
 			x, k := f.expr(sel.X)
 			if k == kEd {
@@ -500,6 +654,12 @@ func (f *gemFn) expr(e ast.Expr) (string, kind) {
 					args = append(args, y)
 				}
 				switch {
+				case sel.Sel.Name == "IsSubEditor" && len(args) == 0:
+					return "(is_sub_editor " + x + ")", kBool
+				case sel.Sel.Name == "Commit" && len(args) == 0:
+					return f.hoist("commit " + x), kEd
+				case sel.Sel.Name == "CommitAll" && len(args) == 0:
+					return f.hoist("commit_all " + x), kEd
 				case sel.Sel.Name == "LineCount" && len(args) == 0:
 					return "(line_count " + x + ")", kInt
 				case sel.Sel.Name == "Lines" && len(args) == 2:
@@ -609,6 +769,38 @@ func (f *gemFn) stmts(l []ast.Stmt, results []kind, depth int) string {
 		}
 		return out + f.stmts(rest, results, depth+1)
 	case *ast.AssignStmt:
+		if len(s.Lhs) > 1 && len(s.Lhs) == len(s.Rhs) && (s.Tok == token.DEFINE || s.Tok == token.ASSIGN) {
+			// a, b := x, y: the right-hand sides are evaluated first, then bound
+			vals := make([]string, len(s.Rhs))
+			kinds := make([]kind, len(s.Rhs))
+			for i := range s.Rhs {
+				vals[i], kinds[i] = f.expr(s.Rhs[i])
+			}
+			out := f.flush()
+			for i, lh := range s.Lhs {
+				id, ok := lh.(*ast.Ident)
+				if !ok {
+					f.bad("parallel assignment target")
+				}
+				if id.Name == "_" {
+					continue
+				}
+				out += "let " + cq(id.Name) + "'tmp : " + kinds[i].coq() + " := " + vals[i] + " in\n  "
+			}
+			for i, lh := range s.Lhs {
+				id := lh.(*ast.Ident)
+				if id.Name == "_" {
+					continue
+				}
+				if s.Tok == token.DEFINE {
+					f.declare(id.Name, kinds[i])
+				} else if old, ok := f.vars[id.Name]; !ok || old != kinds[i] {
+					f.bad("parallel assignment to %s", id.Name)
+				}
+				out += "let " + cq(id.Name) + " : " + kinds[i].coq() + " := " + cq(id.Name) + "'tmp in\n  "
+			}
+			return out + f.stmts(rest, results, depth+1)
+		}
 		if len(s.Lhs) != 1 || len(s.Rhs) != 1 {
 			f.bad("multiple assignment")
 		}
@@ -656,6 +848,34 @@ func (f *gemFn) stmts(l []ast.Stmt, results []kind, depth int) string {
 			return f.flush() + "let " + cq(id.Name) + " : options := (set_" + fd.coq + " " + cq(id.Name) + " " + val + ") in\n  " + f.stmts(rest, results, depth+1)
 		}
 		f.bad("assignment target")
+	case *ast.ExprStmt:
+		// b.Grow(n) reserves space (no effect on the value); b.WriteString(s) appends
+		call, ok := s.X.(*ast.CallExpr)
+		if !ok {
+			f.bad("expression statement")
+		}
+		sel, ok := call.Fun.(*ast.SelectorExpr)
+		if !ok {
+			f.bad("expression statement")
+		}
+		id, ok := sel.X.(*ast.Ident)
+		if !ok || f.vars[id.Name] != kSb {
+			f.bad("expression statement")
+		}
+		switch {
+		case sel.Sel.Name == "Grow" && len(call.Args) == 1:
+			if _, k := f.expr(call.Args[0]); k != kInt {
+				f.bad("Grow argument")
+			}
+			return f.flush() + f.stmts(rest, results, depth+1)
+		case sel.Sel.Name == "WriteString" && len(call.Args) == 1:
+			x, k := f.expr(call.Args[0])
+			if k != kStr {
+				f.bad("WriteString argument")
+			}
+			return f.flush() + "let " + cq(id.Name) + " : list Z := (" + cq(id.Name) + " ++ " + x + ") in\n  " + f.stmts(rest, results, depth+1)
+		}
+		f.bad("unsupported use of strings.Builder.%s", sel.Sel.Name)
 	case *ast.SwitchStmt:
 		// a switch is the if / else-if chain of its cases (no fallthrough, no break)
 		if s.Init != nil {
@@ -842,6 +1062,22 @@ func (f *gemFn) modified(l []ast.Stmt) []string {
 	return out
 }
 
+type needMonad struct{}
+
+// tryBody translates the body; retry is true when the function must be translated as monadic.
+func (f *gemFn) tryBody(l []ast.Stmt, results []kind) (body string, retry bool) {
+	defer func() {
+		if r := recover(); r != nil {
+			if _, ok := r.(needMonad); ok {
+				body, retry = "", true
+				return
+			}
+			panic(r)
+		}
+	}()
+	return f.stmts(l, results, 0), false
+}
+
 // translate makes sure go_<name> is among the unit's definitions and returns its signature.
 func (u *gemUnit) translate(name string) gemSig {
 	if sig, ok := u.done[name]; ok {
@@ -901,14 +1137,25 @@ func (u *gemUnit) translate(name string) gemSig {
 			f.monadic = true
 		}
 	}
+	// a function that turns out to contain an operation that may panic (a slice, a selection) is
+	// translated again as one returning a Res
+	saved := map[string]kind{}
+	for n, k := range f.vars {
+		saved[n] = k
+	}
+	body, retry := f.tryBody(fd.Body.List, results)
+	if retry {
+		f.monadic, f.pre, f.tmp = true, nil, 0
+		f.vars = saved
+		body = f.stmts(fd.Body.List, results, 0)
+	}
 	sig.monadic = f.monadic
-	body := f.stmts(fd.Body.List, results, 0)
 	rt := strings.Join(resT, " * ")
 	if f.monadic {
 		rt = "Res (" + rt + ")"
 	}
-	u.defs = append(u.defs, fmt.Sprintf("Definition go_%s %s : %s :=\n  %s.\n", name, strings.Join(params, " "), rt, body))
-	u.names = append(u.names, "go_"+name)
+	u.defs = append(u.defs, fmt.Sprintf("Definition %s %s : %s :=\n  %s.\n", coqName(name), strings.Join(params, " "), rt, body))
+	u.names = append(u.names, coqName(name))
 	u.done[name] = sig
 	return sig
 }
